@@ -85,7 +85,8 @@ Example C14_nonvacuous :
 Proof. split; [reflexivity|]. split; [cbv; repeat split; discriminate|]. vm_compute. reflexivity. Qed.
 
 (* a ponder search of Black, 1 s against 10 min, ponderhit after 250 ms, three plies below the root,
-   isready every 100 ms, stop after a minute: aborted 132 ms after the ponderhit; the same with the
+   isready every 100 ms, stop after a minute: aborted hard_limit ms after the ponderhit (132 ms with the constants
+   shipped when this was written; the example does not pin retunable numbers); the same with the
    opponent's clock, the traffic and the depth changed *)
 Example C14_arm_nonvacuous :
   let mk (opp oinc plies k ivl : Z) :=
@@ -96,8 +97,9 @@ Example C14_arm_nonvacuous :
   let c' := mk 7 5000 0 0 1 in
   mtime (ac_tc c) = 0 /\ clock_ok (ac_tc c) (ac_color c) /\ clock_started c
   /\ clock_start c + remaining (ac_tc c) (ac_color c) <= ac_stop c
-  /\ same_mover_view c c' /\ abort_delay c = 132 /\ deadline_view c' = (33 :: 1 :: 250 :: 132 :: 1 :: nil).
-Proof. cbv. repeat split; try discriminate; try reflexivity. Qed.
+  /\ same_mover_view c c' /\ abort_delay c = hard_limit (ac_tc c) Black /\ abort_delay c' = abort_delay c
+  /\ deadline_view c' = deadline_view c.
+Proof. vm_compute. repeat split; try discriminate; try reflexivity. Qed.
 
 Example C14_arm_movetime_nonvacuous :
   let c := {| ac_color := White; ac_tc := {| wtime := 0; btime := 0; winc := 0; binc := 0; mtime := 500 |};
